@@ -277,3 +277,79 @@ def sw_table(_case=None):
         except Exception as exc:  # noqa: decoding a statusword must not fail
             rows.append({"sw": sw, "state": "EXCEPTION " + type(exc).__name__})
     return rows
+
+
+# ---- homing / fault reset (spec/Homing.tla, Trace_Homing.tla) -----------------------------------
+HBITS = {"IN PROGRESS": 0, "INTERRUPTED": 0x400, "ATTAINED": 0x1000, "TARGET REACHED": 0x1400,
+         "ERROR VELOCITY IS NOT ZERO": 0x2000, "ERROR VELOCITY IS ZERO": 0x2400}
+
+
+class HDrive(Drive):
+    """reference drive with a homing run: accepted on the rising edge of controlword bit 4 while
+    OPERATION ENABLED in homing mode; the outcome shows after `delay` statusword reads"""
+
+    def __init__(self, ev, state, mode, mask, delay, outcome):
+        super().__init__(ev, state, False, None, mask)
+        self.mode, self.delay, self.outcome = mode, delay, outcome
+        self.run, self.reads = "idle", 0
+
+    def sw(self):
+        shown = self.outcome if self.run == "running" and self.reads >= self.delay else "IN PROGRESS"
+        return BASE[self.state] | HBITS[shown]
+
+    def read_sw(self):
+        v = super().read_sw()
+        self.reads += 1
+        return v
+
+    def write_cw(self, cw):
+        accepted = (cw >> 4) & 1 and not (self.prev >> 4) & 1 and self.state == "OPERATION ENABLED" and self.mode == 6
+        super().write_cw(cw)
+        if accepted:
+            self.run, self.reads = "running", 0
+
+    def download(self, index, subindex, data, force_segment=False):
+        if index == 0x6060:
+            self.mode = struct.unpack("<b", bytes(data))[0]
+            self.ev.append({"e": "modew", "val": self.mode})
+        else:
+            super().download(index, subindex, data, force_segment)
+
+
+def run_homing(case: dict) -> dict:
+    import logging
+    logging.disable(logging.CRITICAL)
+    import canopen.profiles.p402 as p402
+    ev = []
+    drive = HDrive(ev, case["init"], case["mode0"], 0x3EF if case["supported"] else 0x3CF, case["delay"], case["outcome"])
+    net, node = mk_node(drive, "sdo")
+    drive.cap_on = True
+    for op in case["ops"]:
+        drive.in_call = 0
+        p402.time.calls = 0
+        name = op["name"]
+        restore = bool(op.get("restore"))
+        try:
+            if name == "homing":
+                ev.append({"e": "hcall", "restore": restore})
+                r = node.homing(timeout=op.get("timeout", 2), restore_op_mode=restore)
+                ev.append({"e": "hret", "result": bool(r)})
+            elif name == "is_homed":
+                ev.append({"e": "qcall", "restore": restore})
+                r = node.is_homed(restore_op_mode=restore)
+                ev.append({"e": "qret", "result": bool(r)})
+            else:
+                ev.append({"e": "rcall", "restore": False})
+                node.reset_from_fault()
+                ev.append({"e": "rret"})
+        except Runaway as exc:
+            ev.append({"e": "raise", "cls": "Runaway(" + str(exc) + ")"})
+            break
+        except Exception as exc:  # noqa
+            ev.append({"e": "raise", "cls": type(exc).__name__, "repr": str(exc)[:100]})
+            break
+    # keep traces small: the polling reads in the middle of a long wait are uniform
+    for i, e in enumerate(ev):
+        e["n"] = i + 1
+    return {"ev": ev, "init": case["init"], "mode0": case["mode0"], "supported": bool(case["supported"]),
+            "delay": case["delay"], "outcome": case["outcome"]}
